@@ -229,7 +229,9 @@ fn edit_cases(vectors: Option<&str>, corpus: &str, rng: &mut Rng, thorough: bool
       let elems: Vec<String> = widths.iter().enumerate().map(|(k, w)| ident_of_width(*w, matched[k], k)).collect();
       let crlf = i % 5 == 4;
       let nl = if crlf { "\r\n" } else { "\n" };
-      let src = format!("let é = 1;{nl}[{}];{nl}", elems.join(", "));
+      // a file need not start with a token: leading blank lines / indentation (the root node then starts after byte 0)
+      let lead = ["", "\n\n", "  \t", "\n \n  "][i % 4].replace('\n', nl);
+      let src = format!("{lead}let é = 1;{nl}[{}];{nl}", elems.join(", "));
       let mut fix = json!({"template": "XY"[..ins].to_string()});
       if el == 1 {
         fix["expandStart"] = json!({"regex": ",", "stopBy": "neighbor"});
@@ -253,6 +255,8 @@ fn edit_cases(vectors: Option<&str>, corpus: &str, rng: &mut Rng, thorough: bool
     ("var a = 1; var b = 2\n", json!({"pattern": "var $A = $B"})),
     ("foo(a)\r\nfoo(b)\r\n", json!({"pattern": "foo($A)"})),
     ("foo(a, ;\nfoo(b)\n", json!({"pattern": "foo($A)"})),
+    ("\n\n  foo(a);\n  foo(b);\n\n", json!({"pattern": "foo($A)"})),
+    ("   foo(é)", json!({"pattern": "foo($A)"})),
   ];
   for (i, (src, rule)) in fixed.iter().enumerate() {
     for (j, fix) in ["bar($A)", "$A", ""].iter().enumerate() {
@@ -285,7 +289,8 @@ fn edit_cases(vectors: Option<&str>, corpus: &str, rng: &mut Rng, thorough: bool
       let (s, e) = (kid.range().start - site.range().start, kid.range().end - site.range().start);
       let pattern = format!("{}$V{}", &st[..s], &st[e..]);
       let rule = json!({"id": "r", "language": util::lang_name(l), "rule": {"pattern": pattern}, "fix": "$V"});
-      out.push(EditCase { id: format!("{path}#edit{k}"), lang: l, ext: ext_of(&path), src: text.clone(), rule, expanded: false });
+      let src = if k % 2 == 1 { format!("\n \n{text}") } else { text.clone() };
+      out.push(EditCase { id: format!("{path}#edit{k}"), lang: l, ext: ext_of(&path), src, rule, expanded: false });
     }
   }
   out
